@@ -144,6 +144,15 @@ NumCases == {
   One(Eq(s, St(<<97, 92, 117, 48, 48, 52, 49, 98>>)), "string-escape-four-digits"),
   One(Eq(s, St(<<92, 117, 123, 51, 98, 49, 125, 92, 120>>)), "string-escape-greek-and-plain-backslash"),
   One(Eq(s, St(<<233, 92, 117, 123, 122, 125>>)), "string-non-ascii-and-non-escape"),
+  \* near misses are plain text: capital U, three digits, empty / six-digit / non-hex braces, \x, a value above 2FFFF
+  One(Eq(Ap("str.len", <<St(<<92, 85, 48, 48, 52, 49>>)>>), Nm(6)), "string-near-escape-capital-U"),
+  One(Eq(s, St(<<120, 92, 85, 123, 52, 97, 125, 121>>)), "string-near-escape-capital-U-braces"),
+  One(Eq(Ap("str.len", <<St(<<92, 117, 48, 48, 52, 103>>)>>), Nm(6)), "string-near-escape-three-digits"),
+  One(Eq(Ap("str.len", <<St(<<92, 117, 123, 125>>)>>), Nm(4)), "string-near-escape-empty-braces"),
+  One(Eq(Ap("str.len", <<St(<<92, 117, 123, 48, 48, 48, 48, 52, 49, 125>>)>>), Nm(10)), "string-near-escape-six-digits"),
+  One(Eq(Ap("str.len", <<St(<<92, 117, 123, 51, 48, 48, 48, 48, 125>>)>>), Nm(9)), "string-near-escape-above-2FFFF"),
+  One(Eq(s, St(<<92, 120, 52, 49, 92, 110>>)), "string-near-escape-x-and-n"),
+  One(Eq(s, St(<<92, 117, 48, 48, 52, 65, 92, 117, 123, 52, 65, 125>>)), "string-escape-capital-hex-digits"),
   Rej(Eq(b, BvL(16, 4)), "bv-literal-out-of-range"),
   Rej(Eq(b, Hx(10, 8)), "hex-wrong-width") }
 
